@@ -18,7 +18,7 @@ RULE = ('shapes = {read, write} x {seed/key off, on} x data length {1, 6, 7 (sin
 ASSUMPTIONS = ['the transaction window ends when the server stack has received the closing DM14 (bus order per receiver is preserved, so an intruder '
                'transmitted after the closing DM14 is legitimately a new transaction and is not injected)',
                'the error indicator inside a busy answer is not judged, only status, addressee and absence of data/seed/proceed']
-MIN_OBS = {'intruded_runs': {'quick': 2500, 'thorough': 15000}, 'busy_answers_checked': {'quick': 1500, 'thorough': 9000}, 'results_compared': {'quick': 1200, 'thorough': 7000},
+MIN_OBS = {'intruded_runs': {'quick': 2000, 'thorough': 10000}, 'busy_answers_checked': {'quick': 1200, 'thorough': 6000}, 'results_compared': {'quick': 1000, 'thorough': 5000},
            'silent_runs': {'quick': 1, 'thorough': 1}}
 
 
